@@ -92,6 +92,9 @@ func loadProgram(verifDir, modDir string, patterns []string) (*Program, error) {
 	if err != nil {
 		return nil, err
 	}
+	if err := applySeams(ov); err != nil {
+		return nil, err
+	}
 	// native-only files (real implementations of the v* API) are excluded from the
 	// symbolic build by build tag; nothing to do here: both are in the overlay and
 	// selected with the "verifnative" tag.
